@@ -42,6 +42,11 @@ FramesBoom == {S(E_ok), S(E_sub(1)), S(E_boom(1)), S(E_boom(2))}
 FramesLive == {S(E_sub(1)), B(<<E_ok, E_sub(1)>>), Big, S(E_boom(2))}
 FramesMutex == {S(E_ok), S(E_sub(1)), S(E_sub(2)), B(<<E_ok, E_ok>>)}
 
+(* framing: the message shapes x what they owe; a first message of each shape, then later ones *)
+WithFm(fr, fm) == [fr EXCEPT !.fm = fm]
+FramesFraming == {WithFm(fr, fm) : fr \in {S(E_ok), S(E_notif), Garbage, B(<<E_ok, E_notif>>)}, fm \in Framings}
+                   \cup {WithFm(S(E_sub(1)), "frag"), WithFm(S(E_sub(1)), "pad"), BigTail}
+
 (* content: every answer class of C11, singly and in batches *)
 ContentEntries == {E_ok, E_okn, E_apperr, E_nometh, E_badpar, E_badtyp, E_invalid, E_badid, E_notif, E_notifnl,
                    E_notifnm, E_notifbp, E_scalar, E_null, E_memtyp, E_sub(1), E_unsub(1)}
